@@ -52,6 +52,9 @@ theories/Solver.vos theories/Solver.vok theories/Solver.required_vos: theories/S
 theories/SolverProofs.vo theories/SolverProofs.glob theories/SolverProofs.v.beautified theories/SolverProofs.required_vo: theories/SolverProofs.v theories/Base.vo theories/Fringe.vo theories/DP.vo theories/Cache.vo theories/Dom.vo theories/Mdd.vo theories/Solver.vo
 theories/SolverProofs.vio: theories/SolverProofs.v theories/Base.vio theories/Fringe.vio theories/DP.vio theories/Cache.vio theories/Dom.vio theories/Mdd.vio theories/Solver.vio
 theories/SolverProofs.vos theories/SolverProofs.vok theories/SolverProofs.required_vos: theories/SolverProofs.v theories/Base.vos theories/Fringe.vos theories/DP.vos theories/Cache.vos theories/Dom.vos theories/Mdd.vos theories/Solver.vos
+theories/MddProgress.vo theories/MddProgress.glob theories/MddProgress.v.beautified theories/MddProgress.required_vo: theories/MddProgress.v theories/Base.vo theories/Fringe.vo theories/DP.vo theories/Cache.vo theories/Dom.vo theories/Mdd.vo theories/Viz.vo theories/MddStruct.vo theories/MddExact.vo theories/Solver.vo theories/SolverProofs.vo
+theories/MddProgress.vio: theories/MddProgress.v theories/Base.vio theories/Fringe.vio theories/DP.vio theories/Cache.vio theories/Dom.vio theories/Mdd.vio theories/Viz.vio theories/MddStruct.vio theories/MddExact.vio theories/Solver.vio theories/SolverProofs.vio
+theories/MddProgress.vos theories/MddProgress.vok theories/MddProgress.required_vos: theories/MddProgress.v theories/Base.vos theories/Fringe.vos theories/DP.vos theories/Cache.vos theories/Dom.vos theories/Mdd.vos theories/Viz.vos theories/MddStruct.vos theories/MddExact.vos theories/Solver.vos theories/SolverProofs.vos
 theories/Par.vo theories/Par.glob theories/Par.v.beautified theories/Par.required_vo: theories/Par.v theories/Base.vo theories/Fringe.vo theories/FringeProofs.vo theories/Fringe2.vo theories/DP.vo theories/Cache.vo theories/Dom.vo theories/Mdd.vo theories/Solver.vo
 theories/Par.vio: theories/Par.v theories/Base.vio theories/Fringe.vio theories/FringeProofs.vio theories/Fringe2.vio theories/DP.vio theories/Cache.vio theories/Dom.vio theories/Mdd.vio theories/Solver.vio
 theories/Par.vos theories/Par.vok theories/Par.required_vos: theories/Par.v theories/Base.vos theories/Fringe.vos theories/FringeProofs.vos theories/Fringe2.vos theories/DP.vos theories/Cache.vos theories/Dom.vos theories/Mdd.vos theories/Solver.vos
